@@ -123,8 +123,74 @@ def b3_pass(ctx):
     return ok
 
 
+def fn_pass(ctx):
+    """Function-level conformance: TLC enumerates input vectors, the harness calls the real functions, a TLA+ judgement
+    module evaluates every (input, output) pair."""
+    ok = True
+    for spec in plan.FN.get(ctx.pid, []):
+        gen, judge = spec["gen"], spec["judge"]
+        vec = os.path.join(ctx.work, gen + ".vectors.ndjson")
+        res = os.path.join(ctx.work, gen + ".results.ndjson")
+        cfg = "CONSTANTS\n  OutFile = \"%s\"\n  %s\n" % (vec, spec[ctx.tier])
+        rc, out, dt, d = ctx.tlc(gen + ".tla", cfg, "gen-" + gen, workers=1, timeout=900)
+        m = re.search(r'<<"VECTORS", (\d+)>>', out)
+        if not m or not os.path.exists(vec):
+            raise vcheck.MachineryError("vector generation %s failed:\n%s" % (gen, out[-2000:]))
+        o, dt2 = ctx.sim(["fn", "-in", vec, "-out", res], timeout=3000)
+        rc, out, dt3, d = ctx.tlc(judge + ".tla", "CONSTANTS\n  ResFile = \"%s\"\n" % res, "judge-" + judge, workers=1, timeout=1800)
+        ctx.collect_notes(out)
+        mj = re.search(r'<<"JUDGED", (\d+), (\d+), (\d+)>>', out)
+        if not mj:
+            raise vcheck.MachineryError("judgement %s failed:\n%s" % (judge, out[-2500:]))
+        n, nontrivial, bad = int(mj.group(1)), int(mj.group(2)), int(mj.group(3))
+        ctx.cov["passes"].append({"pass": "fn:" + gen, "vectors": n, "nontrivial": nontrivial, "bad": bad, "gen_wall_s": round(dt, 1),
+                                  "harness_wall_s": round(dt2, 1), "judge_wall_s": round(dt3, 1)})
+        ctx.cov["evaluations"] += n
+        ctx.fn_nontrivial = getattr(ctx, "fn_nontrivial", 0) + nontrivial
+        lines = open(res).read().splitlines()
+        ctx.cov["samples"].append({"pair": json.loads(lines[len(lines) // 2])})
+        known = set()
+        for mk in re.finditer(r'<<"KNOWNBAD", (\d+), "([^"]+)">>', out):
+            known.add(int(mk.group(1)))
+            ctx.known_printed.add((ctx.pid, mk.group(2)))
+        bads = [int(x) for x in re.findall(r'<<"BAD", (\d+)>>', out) if int(x) not in known]
+        if bads:
+            import hashlib
+            i = bads[0]
+            line = lines[i - 1]
+            h = hashlib.sha1(line.encode()).hexdigest()[:10]
+            os.makedirs(os.path.join(vcheck.VERIF, "replays"), exist_ok=True)
+            path = os.path.join(vcheck.VERIF, "replays", "%s-%s.fn.ndjson" % (ctx.pid, h))
+            with open(path, "w") as f:
+                f.write(json.dumps(json.loads(line)["in"]) + "\n")
+            # re-execute the single vector and judge it again
+            res2 = os.path.join(ctx.work, "replay.results.ndjson")
+            ctx.sim(["fn", "-in", path, "-out", res2])
+            rc, out2, _, _ = ctx.tlc(judge + ".tla", "CONSTANTS\n  ResFile = \"%s\"\n" % res2, "judge-replay", workers=1, timeout=600)
+            if not re.search(r'<<"BAD", 1>>', out2):
+                raise vcheck.MachineryError("bad pair %d of %s not reproduced on re-execution (%s)" % (i, gen, path))
+            ctx.report_violation(judge, path, "%d of %d (input, output) pairs of the real functions fail the reference in spec/%s.tla; first: vector %d" % (len(bads), n, judge, i))
+            ok = False
+            break
+    return ok
+
+
+def fn_replay(ctx, path):
+    for spec in plan.FN.get(ctx.pid, []):
+        res2 = os.path.join(ctx.work, "replay.results.ndjson")
+        ctx.sim(["fn", "-in", os.path.abspath(path), "-out", res2])
+        rc, out2, _, _ = ctx.tlc(spec["judge"] + ".tla", "CONSTANTS\n  ResFile = \"%s\"\n" % res2, "judge-replay", workers=1, timeout=600)
+        if re.search(r'<<"BAD", \d+>>', out2):
+            ctx.report_violation(spec["judge"], path, "the real function's answer fails the reference in spec/%s.tla" % spec["judge"])
+            return False
+    vcheck.log("replay accepted")
+    return True
+
+
 def run_property(ctx):
     ok = trace_pass(ctx)
+    if ok:
+        ok = fn_pass(ctx)
     if ok:
         ok = b3_pass(ctx)
     if ok:
@@ -134,6 +200,8 @@ def run_property(ctx):
 
 
 def replay(ctx, path):
+    if path.endswith(".fn.ndjson"):
+        return fn_replay(ctx, path)
     props, invs = plan.TRACE.get(ctx.pid, ([], []))
     for spec in plan.B3.get(ctx.pid, []):
         props = sorted(set(props) | set(spec["props"]))
